@@ -68,7 +68,7 @@ func (w *World) findProcRolesUncached() *procRoles {
 			{
 				if st, ok := in.(*ssa.Store); ok {
 					if fa, ok := st.Addr.(*ssa.FieldAddr); ok && isFieldOf(fa, pr.ctxT, "message") {
-						if vp := w.pathOf(st.Val); strings.HasSuffix(vp, ".Msg") || isParamPath(vp) {
+						if vp := w.pathOf(st.Val); strings.HasSuffix(vp, ".Msg") {
 							if pr.deliverFn != nil && pr.deliverFn != fn {
 								bad("two delivery functions: %s, %s", fname(pr.deliverFn), fname(fn))
 							}
